@@ -11,6 +11,10 @@ CLAIMED = {
  'C07': dict(engine = 'symx', technique = 'symbolic execution of real cmp/sort/dictable.sort with z3 over tagged mixed-type values (extended-real floats, NaN identity, Gregorian dates); counterexample replay',
              text = 'cmp laws (range, no raise, antisymmetry, reflexivity, transitivity, int==float, NaN above finite) are decided for all pairs/triples of the mixed-type universe with symbolic contents; sort and dictable.sort (permutation, order under cmp, stability, idempotence, value orders) for all lists/tables up to the stated sizes.',
              note = 'Trusted: z3/cvc5, CPython, proxy classes (validated by concrete replays). Floats are extended reals (no rounding); strings and numpy scalars come from fixed pools chosen by a symbolic index; containers have length <= 2 and depth <= 2; lists <= 4 elements; tables <= 4 rows.'),
+
+ 'C10': dict(engine = 'symx', technique = 'symbolic execution of real drange/date_range/dt_bump with z3 (+cvc5) over a Gregorian-calendar theory and a validated rrule contract stub; counterexample replay',
+             text = 'For every start instant in 1900-2300 and every span inside the stated bounds (either direction) the solver decides that the returned list starts at t0, each element is the previous one plus the bump, stays within the endpoints and stops only when the next element would pass t1; int n == timedelta(n) == "nd"; business-day bumps list every k-th weekday; equal endpoints give [t0]; wrong-direction and zero bumps raise ValueError.',
+             note = 'Trusted: z3/cvc5, CPython, proxy classes; dateutil.rrule is replaced by a contract stub validated against the real rrule on a grid each run (monthly recurrences only from day <= 28). The bump size is a per-path concrete value from a fixed set (n in [-7,7]); list lengths are bounded (see evidence bounds).'),
 }
 NA = {}
 TODO = 'check not built yet in this session (work in progress); will be decided by symbolic execution of the real code as described in DESIGN.md'
